@@ -10,7 +10,8 @@ Besides boundary / basis / forced-feedback / random messages the generators cons
 arithmetic (Gauss-Jordan over GF(2^8) on the systematic generator matrix: any nine symbols of a code word can be
 prescribed), the structured inputs random sampling never reaches: the kernel of the parity map (messages q(x)g(x),
 FEC field = bare mask), prescribed parity / FEC targets, minimum-weight code words, prescribed LFSR register
-mid-way (`algebraic_msgs`, `structured_words`).  `run_script` replays *histories* (generate / check / edit-in-place
+mid-way (`algebraic_msgs`, `structured_words`), and the register at a fixed point / on a short cycle of the step map crossed with equalities
+between the message octets that follow (`stationary_msgs`).  `run_script` replays *histories* (generate / check / edit-in-place
 steps with bytes / bytearray / list / tuple / memoryview arguments) against the reference and verifies after every
 step that no object the caller holds has changed: generate and check must behave as functions of the octets.
 
@@ -253,9 +254,20 @@ def algebraic_msgs(rng, std, thorough, scale=1):
             return [tie(9 + i, i, m[i]) for i in range(3)]
         if kind == "fec=msg[3:6]":
             return [tie(9 + i, 3 + i, m[i]) for i in range(3)]
+        if kind == "parity=msg[0:3]^msg[3:6]":
+            return [({9 + i: 1, i: 1, 3 + i: 1}, 0) for i in range(3)]
+        if kind == "parity=msg[0:3]^msg[3:6]^msg[6:9]":
+            return [({9 + i: 1, i: 1, 3 + i: 1, 6 + i: 1}, 0) for i in range(3)]
+        if kind == "fec=msg[0:3]^msg[6:9]":
+            return [({9 + i: 1, i: 1, 6 + i: 1}, m[i]) for i in range(3)]
+        if kind == "parity=alpha*msg[6:9]":
+            return [({9 + i: 1, 6 + i: ALPHA}, 0) for i in range(3)]
+        if kind == "parity-octets-xor-to-zero,msg-octets-xor-to-zero":
+            return [({9: 1, 10: 1, 11: 1}, 0), ({j: 1 for j in range(9)}, 0), fix(9, v)]
         raise KeyError(kind)
 
-    kinds = ["parity=000000", "parity=ffffff", "fec=000000", "fec=ffffff", "fec=other-mask", "parity=other-mask",
+    kinds = ["parity=msg[0:3]^msg[3:6]", "parity=msg[0:3]^msg[3:6]^msg[6:9]", "fec=msg[0:3]^msg[6:9]", "parity=alpha*msg[6:9]",
+             "parity-octets-xor-to-zero,msg-octets-xor-to-zero", "parity=000000", "parity=ffffff", "fec=000000", "fec=ffffff", "fec=other-mask", "parity=other-mask",
              "parity=vvvvvv", "parity=00vv00", "parity=msg[0:3]", "parity=msg[6:9]", "parity=reversed(msg[6:9])",
              "fec=msg[0:3]", "fec=msg[3:6]"]
     for kind in kinds:
@@ -302,6 +314,262 @@ def algebraic_msgs(rng, std, thorough, scale=1):
                 tail = bytes((0 if style == 0 else 255 if style == 1 else rng.randrange(256)) for _ in range(9 - i))
                 if any(prefix + tail):
                     out.append((prefix + tail, rng.choice(list(std) + [ff]), "alg:register-target"))
+    return out
+
+
+# ------------------------------------------------------------------------------------------------
+# dynamics of the division register: fixed points and cycles of the step map, crossed with equalities between octets
+#
+# Dividing by g one octet at a time is the affine map  T_x(R) = (R*X + x*X^3) mod g  on the 3-octet register R.  X+1 is
+# invertible modulo g (1 is not a root of g), so for EVERY symbol x there is exactly one register state F_x with
+# T_x(F_x) = F_x (F_x = x*F_1; F_0 is the zero register): while the same symbol keeps arriving the register does not
+# move at all.  For a word x_1..x_k of symbols  T_{x_k} o .. o T_{x_1}  likewise has exactly one fixed point as long as
+# X^k+1 is invertible modulo g (k < 85): a register on a cycle of period k.  [Under ONE repeated symbol there are no
+# cycles of period 2..84 other than the fixed point: X^k+1 is invertible.]  An encoder that watches its register
+# ("nothing changed, the rest is fill", "same state as k steps ago, the input is periodic") is only ever wrong on
+# these states, which a random message meets with probability 2^-24 per step and no basis / constant / two-valued
+# message meets at all; they are solved for here, for every state, every step, and crossed with the relations between
+# the stationary symbol and the octets that follow (all equal / only the last equal / one different in between / ...).
+def ref_step(reg, x: int):
+    """(R*X + x*X^3) mod g on reg = [r2, r1, r0] (highest degree first), with GENPOLY from the roots"""
+    s = x ^ reg[0]
+    return [reg[1] ^ gf_mul(s, GENPOLY[1]), reg[2] ^ gf_mul(s, GENPOLY[2]), gf_mul(s, GENPOLY[3])]
+
+
+def _step_matrix():
+    """T_x(R) = A R + x b (columns of A: images of the unit registers under T_0; b = T_1(0))"""
+    cols = [ref_step([1 if i == j else 0 for i in range(3)], 0) for j in range(3)]
+    A = [[cols[j][i] for j in range(3)] for i in range(3)]
+    return A, ref_step([0, 0, 0], 1)
+
+
+STEP_A, STEP_B = _step_matrix()
+
+
+def cycle_state(word):
+    """the register R with T_{x_k}(..T_{x_1}(R)..) = R for word = x_1..x_k; None if not unique"""
+    # the composite map is affine: M R + c with c = image of the zero register, M = image of the unit registers ^ c
+    def run_word(r):
+        for x in word:
+            r = ref_step(r, x)
+        return r
+
+    c = run_word([0, 0, 0])
+    cols = [[a ^ b for a, b in zip(run_word([1 if i == j else 0 for i in range(3)]), c)] for j in range(3)]
+    M = [[cols[j][i] ^ (1 if i == j else 0) for j in range(3)] for i in range(3)]  # M + I
+    r = solve_gf(M, c)
+    if r is None:
+        return None
+    if run_word(list(r)) != list(r):
+        raise RuntimeError("harness arithmetic broken (cycle_state)")
+    return list(r)
+
+
+def _prefix_inverse():
+    # ref_parity of a 3-octet message u is an invertible linear map (u*X^3 mod g); its inverse by three solves
+    cols = [list(ref_parity(bytes(1 if i == j else 0 for i in range(3)))) for j in range(3)]
+    M = [[cols[j][i] for j in range(3)] for i in range(3)]
+    inv_cols = [solve_gf(M, [1 if i == j else 0 for i in range(3)]) for j in range(3)]
+    if any(c is None for c in inv_cols):
+        raise RuntimeError("harness arithmetic broken (prefix inverse)")
+    return [[inv_cols[j][i] for j in range(3)] for i in range(3)]
+
+
+PREFIX_INV = _prefix_inverse()
+
+
+def prefix_with_register(free: bytes, target):
+    """free ++ u (three solved octets) whose division register is `target` = [r2, r1, r0]; len >= 3"""
+    r0 = ref_parity(bytes(free) + bytes(3))
+    t = [a ^ b for a, b in zip(target, r0)]
+    u = [apply_row(PREFIX_INV[i], t) for i in range(3)]
+    p = bytes(free) + bytes(u)
+    if list(ref_parity(p)) != list(target):
+        raise RuntimeError("harness arithmetic broken (prefix_with_register)")
+    return p
+
+
+STD_MASKS_HEX = ("969696", "999999")  # only to aim a register at; run() takes the masks from CrcMasks of /repo
+
+
+TAIL_RELATIONS = ("fill-to-the-end", "only-last-equal", "one-different-in-between", "all-equal-but-last", "stays-then-leaves",
+                  "random-tail", "next-equal-last-equal", "first-octet-equal")
+
+
+def _other(rng, x):
+    return rng.choice([v for v in (x ^ 1, x ^ 0x80, 0, 255, rng.randrange(256), rng.randrange(256)) if v != x])
+
+
+def tail_for(rng, rel, word, n):
+    """n octets that follow a stationary / periodic stretch whose symbol word is `word` (continued cyclically = the
+    register stays on its cycle), related to it as `rel` says"""
+    k = len(word)
+    fill = [word[j % k] for j in range(n)]  # the honest continuation
+    t = list(fill)
+    if n == 0:
+        return bytes(t)
+    if rel == "fill-to-the-end":
+        pass
+    elif rel == "only-last-equal":
+        t = [_other(rng, fill[j]) for j in range(n)]
+        t[-1] = fill[-1]
+    elif rel == "one-different-in-between":
+        j = rng.randrange(n - 1) if n > 1 else 0
+        t[j] = _other(rng, t[j])
+    elif rel == "all-equal-but-last":
+        t[-1] = _other(rng, t[-1])
+    elif rel == "stays-then-leaves":
+        j = rng.randrange(n)
+        t[j:] = [_other(rng, fill[q]) if q == j else rng.randrange(256) for q in range(j, n)]
+    elif rel == "random-tail":
+        t = [rng.randrange(256) for _ in range(n)]
+    elif rel == "next-equal-last-equal":
+        t = [rng.randrange(256) for _ in range(n)]
+        t[0], t[-1] = fill[0], fill[-1]
+        if n > 2:
+            t[1] = _other(rng, fill[1])
+    elif rel == "first-octet-equal":
+        t = [rng.randrange(256) for _ in range(n)]
+    else:
+        raise KeyError(rel)
+    return bytes(t)
+
+
+def stationary_msgs(rng, thorough, scale=1):
+    """(message, origin, info): info = {"i": first stationary step, "k": period, "rel": relation of the tail}.
+    The register BEFORE step i (after the octets d[:i]) is the fixed point / cycle state, d[i:i+k] is the symbol word
+    that brings it back, so the register after step i+k-1 equals the register before step i."""
+    out = []
+    F1 = cycle_state([1])
+    if F1 is None or not any(F1):
+        raise RuntimeError("harness arithmetic broken (fixed point of the step map)")
+    # (1) every non-zero fixed point x every step 3..8 (the register can be prescribed from step 3 on) x tail relations
+    rels_q = list(TAIL_RELATIONS)
+    for x in range(1, 256):
+        F = [gf_mul(x, c) for c in F1]
+        if ref_step(F, x) != F or (F[0] ^ x) == 0:
+            raise RuntimeError("harness arithmetic broken (fixed point)")
+        for y in (x ^ 1, x ^ 255):
+            if ref_step(F, y) == F:
+                raise RuntimeError("harness arithmetic broken (fixed point under another symbol)")
+        for i in range(3, 9):
+            rels = rels_q if thorough else [rels_q[(x + i + j + rng.randrange(2)) % len(rels_q)] for j in range(0, 6, 2)] + ["only-last-equal", "fill-to-the-end"]
+            for rel in dict.fromkeys(rels):
+                for _ in range(scale if rel in ("only-last-equal", "one-different-in-between", "next-equal-last-equal") else 1):
+                    style = rng.randrange(3)
+                    free = bytes((0 if style == 0 else rng.randrange(256)) for _ in range(i - 3))
+                    p = prefix_with_register(free, F)
+                    if rel == "first-octet-equal" and i >= 4:
+                        p = prefix_with_register(bytes([x]) + free[1:], F)
+                    d = p + bytes([x]) + tail_for(rng, rel, [x], 8 - i)
+                    out.append((d, "stationary:fixed-point:" + rel, {"i": i, "k": 1, "rel": rel}))
+    # (2) cycles of period 2..4 under a symbol word that is not constant
+    n_words = (24 if thorough else 6) * scale
+    for k in (2, 3, 4):
+        for i in range(3, 10 - k):
+            for _ in range(n_words):
+                word = [rng.randrange(256) for _ in range(k)]
+                z = rng.randrange(4)
+                if z == 0:
+                    word[rng.randrange(k)] = 0
+                elif z == 1:
+                    word = [word[0]] * (k - 1) + [_other(rng, word[0])]
+                if len(set(word)) == 1:
+                    word[-1] ^= 1
+                R = cycle_state(word)
+                if R is None:
+                    continue
+                free = bytes(rng.randrange(256) for _ in range(i - 3))
+                p = prefix_with_register(free, R)
+                for rel in (TAIL_RELATIONS[:7] if thorough else rng.sample(TAIL_RELATIONS[:7], 3)):
+                    d = p + bytes(word) + tail_for(rng, rel, word, 9 - i - k)
+                    if ref_parity(d[: i + k]) != ref_parity(d[:i]):
+                        raise RuntimeError("harness arithmetic broken (cycle)")
+                    out.append((d, f"stationary:period-{k}:" + rel, {"i": i, "k": k, "rel": rel}))
+    # (3) the register meets the data / the mask: equal to the three octets that follow (three zero feedbacks in a
+    # row: the register empties itself), to the three octets before, to the stationary symbol in all three cells
+    for i in range(3, 9):
+        for _ in range((12 if thorough else 3) * scale):
+            free = bytes(rng.randrange(256) for _ in range(i - 3))
+            nxt = [rng.randrange(1, 256) for _ in range(3)]
+            kinds = [("register=next-three-octets", nxt), ("register=xxx(next-octet)", [nxt[0]] * 3), ("register=reversed-next-three", nxt[::-1])]
+            for lab, target in kinds:
+                p = prefix_with_register(free, target)
+                rest = (bytes(nxt) + bytes(rng.randrange(256) for _ in range(9)))[: 9 - i]
+                out.append((p + rest, "stationary:" + lab, {"i": i, "k": 0, "rel": lab}))
+            # partially stationary: the step leaves two of the three cells unchanged and moves the third (a comparison of
+            # a slice of the register); the register equals a mask of the standard / its reverse (the caller's mask rides along)
+            for moved in range(3):
+                # feedback s; the two cells that stay satisfy their fixed-point equation, the third is off by a non-zero amount
+                sfb = rng.randrange(1, 256)
+                off = rng.randrange(1, 256)
+                r0 = gf_mul(sfb, GENPOLY[3]) ^ (off if moved == 0 else 0)
+                r1 = r0 ^ gf_mul(sfb, GENPOLY[2]) ^ (off if moved == 1 else 0)
+                r2 = r1 ^ gf_mul(sfb, GENPOLY[1]) ^ (off if moved == 2 else 0)
+                reg, sym = [r2, r1, r0], sfb ^ r2
+                nreg = ref_step(reg, sym)
+                same = [a_ == b_ for a_, b_ in zip(reg, nreg)]
+                if same != [moved != 2, moved != 1, moved != 0]:
+                    raise RuntimeError("harness arithmetic broken (partially stationary register)")
+                p = prefix_with_register(free, reg)
+                lab = f"two-cells-unchanged(parity[{moved}]-moves)"
+                for rel in ("only-last-equal", "fill-to-the-end"):
+                    out.append((p + bytes([sym]) + tail_for(rng, rel, [sym], 8 - i), "stationary:" + lab + ":" + rel, {"i": i, "k": 1, "rel": rel}))
+            for mk in STD_MASKS_HEX:
+                mb = bytes.fromhex(mk)
+                for lab, target in (("register=mask", list(mb)), ("register=reversed-mask", list(mb[::-1]))):
+                    p = prefix_with_register(free, target)
+                    out.append((p + bytes(rng.randrange(256) for _ in range(9 - i)), "stationary:" + lab, {"i": i, "k": 0, "rel": lab, "mask": mb}))
+            # register equals the three octets that produced it (prefix fixed point of u -> u*X^3 mod g shifted by the free part)
+            if i >= 4:
+                # d[i-3:i] = register: solve (P + I) u = r0 where r0 = register contribution of the free part
+                r0 = list(ref_parity(free + bytes(3)))
+                cols = [list(ref_parity(bytes(1 if a == b else 0 for a in range(3)))) for b in range(3)]
+                M = [[cols[b][a] ^ (1 if a == b else 0) for b in range(3)] for a in range(3)]
+                u = solve_gf(M, r0)
+                if u is not None and any(u):
+                    p = free + bytes(u)
+                    if list(ref_parity(p)) != list(u):
+                        raise RuntimeError("harness arithmetic broken (register = last three octets)")
+                    out.append((p + bytes(rng.randrange(256) for _ in range(9 - i)), "stationary:register=last-three-octets", {"i": i, "k": 0, "rel": "register=last-three-octets"}))
+    return out
+
+
+def relation_msgs(rng, n):
+    """(message, mask, origin): arithmetic relations among the message octets / 16- and 24-bit words of the message and the mask
+    (an octet that is the xor / sum / difference / and / or of two others, a word that is a rotation of another, the mask
+    equal to message octets) — no algebra needed, the verdict comes from the syndromes as always"""
+    out = []
+    ops = {"xor": lambda a, b, w: a ^ b, "add": lambda a, b, w: a + b, "sub": lambda a, b, w: a - b, "and": lambda a, b, w: a & b, "or": lambda a, b, w: a | b,
+           "rotl4": lambda a, b, w: (a << 4) | (a >> (w - 4)), "rotl1": lambda a, b, w: (a << 1) | (a >> (w - 1)), "not": lambda a, b, w: ~a, "eq": lambda a, b, w: a}
+    names = list(ops)
+    for j in range(n):
+        d = bytearray(rng.randrange(256) for _ in range(9))
+        m = bytes(rng.randrange(256) for _ in range(3))
+        k = rng.choice((1, 1, 2, 3))  # word size in octets
+        slots = list(range(0, 9 - k + 1, k))
+        if len(slots) < 3:
+            continue
+        a, b, c = rng.sample(slots, 3)
+        op = names[j % len(names)]
+        x = int.from_bytes(d[a:a + k], "big")
+        y = int.from_bytes(d[b:b + k], "big")
+        z = ops[op](x, y, 8 * k) & ((1 << (8 * k)) - 1)
+        d[c:c + k] = z.to_bytes(k, "big")
+        how = rng.randrange(4)
+        if how == 1:
+            m = bytes(d[a:a + 3]) if a + 3 <= 9 else m  # the mask repeats message octets
+        elif how == 2:
+            m = bytes([d[a] ^ d[b], d[c], (d[a] + d[b]) & 255])
+        if rng.random() < 0.3:  # a second relation on other octets
+            rest = [q for q in slots if q not in (a, b, c)]
+            if len(rest) >= 3:
+                a2, b2, c2 = rng.sample(rest, 3)
+                op2 = rng.choice(names)
+                z2 = ops[op2](int.from_bytes(d[a2:a2 + k], "big"), int.from_bytes(d[b2:b2 + k], "big"), 8 * k) & ((1 << (8 * k)) - 1)
+                d[c2:c2 + k] = z2.to_bytes(k, "big")
+                op = op + "+" + op2
+        out.append((bytes(d), m, f"relation:{8 * k}-bit-words:{op}"))
     return out
 
 
@@ -1205,7 +1473,15 @@ def run(ctx):
         "GF(2^8) linear algebra (any nine symbols of a code word may be prescribed): messages q(x)g(x) (zero parity, FEC field = bare mask), "
         "messages whose parity / transmitted FEC field hits 000000, ffffff, the mask, another mask, a constant, or equals message octets, "
         "minimum-weight (4) code words on prescribed supports, messages whose LFSR register takes a prescribed value (zero, ff, zero components) "
-        "after i octets; received words that only look like these (bare mask / constants / message octets in the FEC field, permuted parity, "
+        "after i octets; stationary / periodic division register (`stationary_msgs`): for EVERY non-zero fixed point of the step map R -> (R*X + x*X^3) mod g "
+        "(one per symbol x, 255) and every step 3..8 at which a register can be prescribed a message whose register is that state and whose next octet is the one "
+        "symbol that keeps it there, crossed with the relations between that symbol and the octets that follow (all equal / only the last equal / one different in "
+        "between / all but the last / stays then leaves / next and last equal / first octet equal / random); registers on cycles of period 2..4 under a non-constant "
+        "symbol word (under ONE repeated symbol no cycle shorter than 85 exists besides the fixed point) with the same tail relations; steps that leave exactly two of the "
+        "three cells unchanged; the register equal to the next three octets / the last three / a mask of the standard; on each the property on generate + check and corruptions of "
+        "the octets that FOLLOW the stationary stretch; the harness's fixed points and registers are compared with the Lean definitions (`rs.fix`, `rs.reg`); "
+        "arithmetic relations among the message octets / 16- and 24-bit words and the mask (xor, sum, difference, and, or, rotation, complement; two at once), parity tied to xor-combinations / an alpha-multiple of message octets; "
+        "received words that only look like these (bare mask / constants / message octets in the FEC field, permuted parity, "
         "patterns, weight-4 code words with octets cleared). Super-codes (a checker that passes a SUBSET of the checks accepts the low-weight words "
         "of a larger code, which random corruption never meets): on words returned by the real generate (captured, zero, random, zero-parity; the two standard "
         "masks, zero, ff, two others) error patterns SOLVED with the harness's linear algebra — for each of the 220 position triples and each proper subset of "
@@ -1341,6 +1617,10 @@ def run(ctx):
         for _ in range(ctx.budget(2, 10)):
             msgs.append((bytes(rng.randrange(256) for _ in range(9)), m, "structured-mask"))
 
+    # arithmetic relations among the message octets / words and the mask
+    for d, m, origin in relation_msgs(rng, ctx.budget(300, 3000)):
+        msgs.append((d, m if rng.random() < 0.5 else rng.choice(masks + [("zero", zero)])[1], origin))
+
     gen_pairs, chk_pairs = [], []
     all_masks = [m for _, m in masks] + [zero]
 
@@ -1418,6 +1698,68 @@ def run(ctx):
         if not ctx.search_only and len(chk_pairs) > 200000 and ctx.driver_ok:
             ctx.correspond("check", chk_pairs)
             chk_pairs.clear()
+
+    # ------------------------------------------------------------------ stationary / periodic division register
+    # every non-zero fixed point of the step map at every step it can be reached, cycles of period 2..4 under symbol
+    # words, the register meeting the data — crossed with the equalities between the stationary symbol(s) and the octets
+    # that follow.  Per message: the property on generate (+ check of the result), then corruptions of the octets that
+    # FOLLOW the stationary stretch (an encoder / checker that stopped dividing there cannot see them).
+    reg_pairs = []  # harness arithmetic vs the Lean model's register (specification side; no code involved)
+    n_stat = 0
+    listed_stat = {}
+    for idx, (d, origin, info) in enumerate(stationary_msgs(rng, ctx.thorough(), scale=min(ctx.boost, 4))):
+        m = (all_masks + [b"\xff\xff\xff"])[idx % 4] if idx % 9 else bytes(rng.randrange(256) for _ in range(3))
+        m = info.get("mask", m)
+        n_stat += 1
+        ctx.count("msg:" + origin)
+        ctx.count(f"stationary:first-step:{info['i']}")
+        c = call(R.generate, d, m)
+        gen_pairs.append((f"rs.gen {hex_str(d)} {hex_str(m)}", out_gen(c)))
+        ctx.case(("gen", d, m), nontrivial=True, sample={"op": "generate", "class": origin, "register-stationary-from-step": info["i"], "data": hex_str(d), "mask": hex_str(m), "out": out_gen(c)} if idx in (5, 1500) else None)
+        r = eval_generate(R, d, m)
+        if r is not None:
+            listed_stat[origin] = listed_stat.get(origin, 0) + 1
+            if listed_stat[origin] <= 2 and len(listed_stat) <= 12:
+                ctx.fail("generate", {"data": hex_str(d), "mask": hex_str(m), "class": origin, "register-stationary-from-step": info["i"], "period": info["k"]},
+                         r[0] + f" (message class: {origin}; the division register before step {info['i']} is a fixed point / on a cycle of the step map)", expected=r[1], actual=r[2])
+            else:
+                ctx.count("stationary:failing-not-listed")
+        if idx % 16 == 0:
+            i, k = info["i"], max(info["k"], 1)
+            for cut in (i, min(i + k, 9)):
+                rr = ref_parity(d[:cut])
+                reg_pairs.append((f"rs.reg {hex_str(d[:cut])}", f"{rr[2]} {rr[1]} {rr[0]}"))
+        if isinstance(c, str) or len(bytes(c)) != 12:
+            continue
+        c = bytes(c)
+        chk_line(c, m)
+        after = list(range(min(info["i"] + max(info["k"], 1), 9), 9))  # octets that follow the stationary stretch
+        errs = []
+        if after:
+            errs.append(rand_error(rng, positions=rng.sample(after, rng.randrange(1, min(3, len(after)) + 1))))
+            if len(after) > 1:
+                errs.append(rand_error(rng, positions=[rng.choice(after[:-1])]))  # in between, the last one kept
+        if idx % 3 == 0:
+            errs.append(rand_error(rng, rng.randrange(1, 4)))
+            errs.append(rand_error(rng, positions=[info["i"] if info["i"] < 9 else 8]))
+        for e in errs:
+            w = xor_b(c, e)
+            k_ = chk_line(w, m)
+            ctx.case(("detect", d, m, e), nontrivial=True)
+            ctx.count("stationary:corruptions")
+            if k_ is not False:
+                key = "detect:" + origin
+                listed_stat[key] = listed_stat.get(key, 0) + 1
+                if listed_stat[key] <= 2 and len(listed_stat) <= 12:
+                    ctx.fail("detect", {"data": hex_str(d), "mask": hex_str(m), "error": hex_str(e), "class": origin},
+                             f"corruption of {weight(e)} octet(s) of a generated word is not detected (message class: {origin})", expected=False, actual=out_chk(k_))
+                else:
+                    ctx.count("stationary:failing-not-listed")
+    ctx.count("stationary:messages", n_stat)
+    F1 = cycle_state([1])
+    for x in range(256):  # the fixed point of every symbol, by the harness's linear algebra, against the Lean definition
+        F = [gf_mul(x, c_) for c_ in F1]
+        reg_pairs.append((f"rs.fix {x ^ F[0]}", f"{F[2]} {F[1]} {F[0]} {x}"))
 
     # ------------------------------------------------------------------ arbitrary received words
     for _ in range(ctx.budget(1500, 30000)):
@@ -1680,6 +2022,7 @@ def run(ctx):
         if ctx.lean.get("build_ok") and not ctx.lean.get("failed") and not ctx.lean.get("extract_errors"):
             # syndromes and root-subset checkers: harness arithmetic vs the Lean definitions the theorems are about
             ctx.correspond("specification(syndromes, root-subset checker: oracle arithmetic vs Lean)", spec_pairs)
+            ctx.correspond("specification(division register after a prefix, fixed points of the step map: oracle arithmetic vs Lean)", reg_pairs)
         outs = ctx.drive([ln for _, ln, _ in ood])
         ndiff = 0
         for (comp, ln, impl), model in zip(ood, outs):
